@@ -90,7 +90,7 @@ def mutate(rnd, raw):
             p, n = rnd.choice(enums)
             bad = rnd.choice(["1abc", "a-b", "", "é", "a b", 5, "A.B", None, "dup"])
             if bad == "dup":
-                n["symbols"] = n["symbols"] + [n["symbols"][0]]
+                n["symbols"] = n["symbols"] + [n["symbols"][0]] if n["symbols"] else ["A", "A"]
             else:
                 n["symbols"] = n["symbols"] + [bad]
             return kind, s
